@@ -71,4 +71,33 @@ theorem proto_version (p : BitVec 8) :
   · revert p; decide
   · revert p; decide
 
+
+theorem byteOf_congr {a b : Nat} (h : a % 256 = b % 256) : byteOf a = byteOf b := by
+  unfold byteOf
+  apply UInt8.toNat_inj.mp
+  simp [h]
+
+/-- `writeHeader` followed by `setLength`: the model's header, for both stream widths -/
+theorem header (buf0 : List (BitVec 8)) (p fl op : BitVec 8) (stream : Int) (len : Nat) (hl : len < 2^63) :
+    (Gen.Frame.setLength p (Gen.Frame.writeHeader buf0 p fl op (BitVec.ofInt 64 stream)) (BitVec.ofNat 64 len)).map UInt8.ofBitVec
+      = wHeader p.toNat fl.toNat stream op.toNat len := by
+  have e : (BitVec.ofInt 64 stream).toNat = (stream % 18446744073709551616).toNat := by simp [BitVec.toNat_ofInt]
+  have el : (BitVec.ofNat 64 len).toNat = len := by simp; omega
+  have hb : ∀ x : BitVec 8, UInt8.ofBitVec x = byteOf x.toNat := by
+    intro x; have := low_byte0 x; simpa using this
+  unfold Gen.Frame.setLength Gen.Frame.writeHeader wHeader
+  by_cases h : BitVec.ult 0x2#8 p
+  · have hv : p.toNat > 2 := by simpa [BitVec.ult] using h
+    simp only [h, if_true, hv]
+    simp [low_byte_sshift (w := 64) _ 24 (by decide), low_byte_sshift (w := 64) _ 16 (by decide),
+      low_byte_sshift (w := 64) _ 8 (by decide), e, el, hb, wUInt]
+    simp only [Nat.shiftRight_eq_div_pow]
+    refine ⟨?_, ?_, ?_, ?_, ?_, ?_⟩ <;> apply byteOf_congr <;> omega
+  · have hv : ¬ p.toNat > 2 := by simpa [BitVec.ult] using h
+    simp only [h, hv]
+    simp [low_byte_sshift (w := 64) _ 24 (by decide), low_byte_sshift (w := 64) _ 16 (by decide),
+      low_byte_sshift (w := 64) _ 8 (by decide), e, el, hb, wUInt]
+    simp only [Nat.shiftRight_eq_div_pow]
+    refine ⟨?_, ?_, ?_, ?_, ?_⟩ <;> apply byteOf_congr <;> omega
+
 end GenTie.Frame
